@@ -538,9 +538,19 @@ def _guard_reads(run, P):
             src = x.value
         if src is None:
             continue
+        # directly, or through a local that holds get_variables(<guard>) and nothing else
+        holders = {t_.id for s_ in ast.walk(f.node) if isinstance(s_, ast.Assign)
+                   and isinstance(s_.value, ast.Call)
+                   and (dotted(s_.value.func) or "").split(".")[-1] == "get_variables"
+                   and s_.value.args and dotted(s_.value.args[0]) == cv
+                   for t_ in s_.targets if isinstance(t_, ast.Name)
+                   and sum(1 for z in ast.walk(f.node) if isinstance(z, ast.Name)
+                           and z.id == t_.id and isinstance(z.ctx, ast.Store)) == 1}
         for y in ast.walk(src):
             if isinstance(y, ast.Call) and (dotted(y.func) or "").split(".")[-1] == "get_variables" \
                     and y.args and dotted(y.args[0]) == cv:
+                hits.append(x)
+            if isinstance(y, ast.Name) and y.id in holders:
                 hits.append(x)
     run.ob("C02.cond", f, hits[0] if hits else f.node, bool(hits),
            construct=f"the read set of a new statement takes in get_variables({cv}), the guard "
